@@ -113,6 +113,9 @@ def generate(seed, tier, k):
         doc["faults"] = [f for f in doc["faults"] if not f["kind"].startswith("callback")]
         doc["c09"]["twin"] = False
         doc["bc"]["clamped"] = True
+    if r.random() < 0.12:
+        # another model of the same kind was post-processed earlier in the process
+        doc["prelude"] = [r.choice(["extrapolate", "extrapolate", "project"])]
     return doc
 
 
